@@ -42,7 +42,7 @@ func PanicInventory(cgEntries []string, dynEntries []DynEntry, universe []atom, 
 		di := runDyn(p, r, "D-DYN", dynEntries, universe, domainText, opts...)
 		pi := di.na.slotFields.pi
 
-		nPanic, nDiv, nTA, nRefl := 0, 0, 0, 0
+		nPanic, nDiv, nTA, nRefl, nCmp := 0, 0, 0, 0, 0
 		perFn := map[string]int{}
 		seq := map[string]int{}
 		mk := func(base string) string {
@@ -63,6 +63,18 @@ func PanicInventory(cgEntries []string, dynEntries []DynEntry, universe []atom, 
 					nPanic++
 					perFn[core.FuncName(core.EnclosingTop(f))]++
 				case *ssa.BinOp:
+					if x.Op == token.EQL || x.Op == token.NEQ {
+						if holdsInterface(x.X.Type(), 0) {
+							nCmp++
+							key := mk(fn + ":compare " + typeShort(x.X.Type()))
+							if comparableSide(x.X) || comparableSide(x.Y) {
+								r.OK("D-CMP", key, p.Pos(x.Pos()), "one side is nil, a constant, a value of comparable static type or an untouched zero value: the comparison cannot meet two equal uncomparable dynamic types")
+							} else {
+								r.Bad("D-CMP", key, p.Pos(x.Pos()), "== / != on values holding interfaces whose dynamic types may both be the same uncomparable type (map, slice, func): runtime panic 'comparing uncomparable type'")
+							}
+						}
+						return
+					}
 					if x.Op != token.QUO && x.Op != token.REM {
 						return
 					}
@@ -160,6 +172,7 @@ func PanicInventory(cgEntries []string, dynEntries []DynEntry, universe []atom, 
 		r.Count("integer_divisions", nDiv)
 		r.Count("unchecked_type_assertions", nTA)
 		r.Count("reflect_kind_calls", nRefl)
+		r.Count("interface_comparisons", nCmp)
 		r.Note("PANIC-INVENTORY: %d reachable functions from %v: %d explicit panics, %d integer divisions, %d unchecked assertions, %d kind-specific reflect calls", len(reach), cgEntries, nPanic, nDiv, nTA, nRefl)
 	}
 }
@@ -337,4 +350,66 @@ func ExpandFirst(p *core.Prog, r *core.Report) {
 	}
 	r.Count("spec_schema_validator_sites", n)
 	r.Floor("spec_schema_validator_sites", 5)
+}
+
+// holdsInterface: values of this type are compared through interface equality somewhere inside.
+func holdsInterface(t types.Type, d int) bool {
+	if d > 5 {
+		return false
+	}
+	switch u := t.Underlying().(type) {
+	case *types.Interface:
+		return true
+	case *types.Struct:
+		for i := 0; i < u.NumFields(); i++ {
+			if holdsInterface(u.Field(i).Type(), d+1) {
+				return true
+			}
+		}
+	case *types.Array:
+		return holdsInterface(u.Elem(), d+1)
+	}
+	return false
+}
+
+// comparableSide: the value cannot carry an uncomparable dynamic type.
+func comparableSide(v ssa.Value) bool {
+	switch x := v.(type) {
+	case *ssa.Const:
+		return true
+	case *ssa.MakeInterface:
+		return types.Comparable(x.X.Type()) && !holdsInterface(x.X.Type(), 0)
+	case *ssa.UnOp:
+		// an untouched zero value of a local (simpleZero := T{})
+		if al, ok := x.X.(*ssa.Alloc); ok {
+			for _, ref := range core.Refs(al) {
+				switch u := ref.(type) {
+				case *ssa.Store:
+					if u.Addr == ssa.Value(al) {
+						return false
+					}
+				case *ssa.FieldAddr, *ssa.IndexAddr:
+					for _, r2 := range core.Refs(u.(ssa.Value)) {
+						if _, isSt := r2.(*ssa.Store); isSt {
+							return false
+						}
+					}
+				case *ssa.UnOp, *ssa.DebugRef:
+				default:
+					return false
+				}
+			}
+			return true
+		}
+	case *ssa.Call:
+		// error values and operationType strings produced by the package/stdlib are comparable
+		if it, ok := x.Type().Underlying().(*types.Interface); ok && it.NumMethods() > 0 {
+			return true
+		}
+	}
+	if it, ok := v.Type().Underlying().(*types.Interface); ok && it.NumMethods() > 0 {
+		// non-empty interfaces here (error, reflect.Type, validators) are implemented by pointer / comparable types
+		return true
+	}
+	return false
 }
